@@ -101,6 +101,15 @@ Definition construct_with (c : cfg) (o : sobj) (sels : list ustring) : outcome s
   | None => Ok o'
   end.
 
+(* the same with a LANGUAGE marking {selectors: sels, lang: "en"} *)
+Definition construct_with_lang (c : cfg) (o : sobj) (sels : list ustring) : outcome sobj :=
+  let o' := mkobj (o_kind o) (o_v21 o) (o_vtype o) (o_props o) (o_omr o)
+                  (Some (List.app (gms_list o) [mkgm sels [] (u "en")])) in
+  match ctor_check c o' with
+  | Some e => Err e
+  | None => Ok o'
+  end.
+
 Definition show_unit_outcome {A} (r : outcome A) : string := show_outcome (fun _ => "ok") r.
 
 (* one-letter outcome codes keep the result strings small *)
@@ -130,7 +139,9 @@ Definition c08_line (c : cfg) (o : sobj) (sels : list ustring) : string :=
   (match o_kind o with KObj => code (construct_with c o sels) | KDict => "-" end) ++
   (* the queries with inherited / descendants: asking for the first object marking if there is one *)
   code (is_marked c o (match omr_list o with m :: _ => [m] | [] => [] end) (Some sels) true true) ++
-  code (get_markings c o (Some sels) true true true true).
+  code (get_markings c o (Some sels) true true true true) ++
+  (* construction / parse with the selectors in a language marking *)
+  (match o_kind o with KObj => code (construct_with_lang c o sels) | KDict => "-" end).
 
 Definition c08_lines (c : cfg) (o : sobj) (sels : list (list ustring)) : string :=
   join " " (map (c08_line c o) sels).
